@@ -299,6 +299,7 @@ def rw_common(toks, log):
     # R17 io::Error Display
     toks = replace_all(toks, ["err", ".", "to_string", "(", ")"], ["err_to_string", "(", "&", "err", ")"], log,
                        "R17 err.to_string() -> err_to_string(&err)")
+    toks = replace_all(toks, ["u8", "::", "from", "("], ["u8_from_bool", "("], log, "R26 u8::from(bool) -> u8_from_bool wrapper")
     # block_on(E) -> E  (after R1 the argument is a plain call)
     toks = replace_all(toks, ["block_on", "("], ["("], log, "R1b block_on(f) -> (f)")
     # crate:: paths: everything lives in one flat module
@@ -668,12 +669,18 @@ def extract_fn(idx, c, rewrites, sig_only=False):
     log = []
     sig = rw_common(list(it.header), log)
     body = rw_common(list(it.body), log) if not sig_only else []
+    for pat, rep in c.subst:
+        sig = replace_all(sig, pat, rep, log, "R5s @subst (signature) `%s` -> `%s`" % (norm(pat), norm(rep)))
     for pat, rep in ([] if sig_only else c.subst):
         before = len(log)
         body = replace_all(body, pat, rep, log, "R5s @subst `%s` -> `%s`" % (norm(pat), norm(rep)))
-        if len(log) == before:
+        if len(log) == before and not any(("`%s`" % norm(pat)) in r for r, _ in log):
             raise GenError("lost anchor: @subst pattern `%s` not found in %s" % (norm(pat), c.path))
     if not sig_only:
+        nconst = sum(1 for i, t in enumerate(body) if t == "const" and i + 2 < len(body) and body[i + 2] == ":")
+        if nconst:
+            body = ["let" if (t == "const" and i + 2 < len(body) and body[i + 2] == ":") else t for i, t in enumerate(body)]
+            log.append(("R25 block-local `const X: T = lit;` -> `let X: T = lit;`", nconst))
         body = rw_sum(body, log, None)
         body = rw_contains(body, log)
         body = rw_for_index(body, log)
@@ -964,6 +971,8 @@ def emit_group(em, idx, entries, all_specs, rewrites, fninfo):
     for c, verify in entries:
         ip, name = impl_of(c.path)
         key = ip or ("free", c.path)
+        if c.opts.get("impl_as"):
+            key = ("inherent", c.opts["impl_as"])
         if key not in groups:
             groups[key] = []
             order.append(key)
@@ -973,6 +982,14 @@ def emit_group(em, idx, entries, all_specs, rewrites, fninfo):
         if kind == "implspec":
             implspecs.setdefault(arg, []).append(text)
     for key in order:
+        if isinstance(key, tuple) and key[0] == "inherent":
+            em.add("impl %s {   // methods of a trait impl emitted as inherent methods (R24: trait dispatch dropped)" % key[1])
+            for c, verify in groups[key]:
+                h = emit_fn(em, idx, c, rewrites, verify=verify)
+                fninfo.append(dict(path=c.path, props=c.props, verified=verify and c.mode != "trusted",
+                                   trusted_by=c.trusted_by, sha=h, vc=os.path.basename(c.src)))
+            em.add("}")
+            continue
         if isinstance(key, tuple):
             c, verify = groups[key][0]
             h = emit_fn(em, idx, c, rewrites, verify=verify)
